@@ -879,7 +879,8 @@ fn corpus() -> Vec<Fixed> {
             steps: vec![Step::Change(vec![rg(0, 11, 0, 11, "er")]), Step::Save, Step::Change(vec![rg(0, 13, 0, 13, "!")]),
                         Step::Rewrite("PROGRAM Elsewhere\nEND_PROGRAM\n".into())],
         },
-        // KNOWN FINDING: the file is deleted while the document is open; the server drops the document
+        // the defect repaired by /repo 9240ec7: the file is deleted while the document is open and
+        // the server used to drop the document
         Fixed {
             name: "deleted-while-open",
             text: "PROGRAM Main\nEND_PROGRAM\n",
@@ -1811,9 +1812,9 @@ fn drive(bin: &str, plan: &Plan, root: Option<&str>, r: &mut Rng, s: &mut Sess) 
                     }
                     s.spurious()?
                 }
-                15 => {
-                    // deleting the file of an OPEN document: known finding, kept rare
-                    if s.ws.as_ref().is_some_and(|w| w.main.is_some()) && (!open || r.chance(1, 4)) {
+                15 | 16 => {
+                    // deleting the file, also while the document is open (the buffer outlives it)
+                    if s.ws.as_ref().is_some_and(|w| w.main.is_some()) && (!open || r.chance(3, 4)) {
                         s.delete(with)?;
                     } else if let Some(ev) = with {
                         s.watched(&[ev])?;
